@@ -247,11 +247,21 @@ class Model(object):
         """Behaviour-preserving normal form relative to the reference tree:
         helpers that did not exist there are expanded inline (sa/inline.py),
         then renamed locals are mapped back (sa/alpha.py)."""
-        from . import inline, desugar, funcrename
+        from . import inline, desugar, funcrename, callform
+        self.calls_canonical = 0
+        if not os.environ.get("VERIF_NO_CALLFORM"):
+            from . import tables
+            self.calls_canonical = callform.canonicalise(
+                self, set(tables.schema_modules(self)))
         self.func_renamed = {}
         if not os.environ.get("VERIF_NO_FUNCRENAME"):
             self.func_renamed = funcrename.restore_names(self)
         self.inlined = inline.expand_new_helpers(self)
+        # single-use temporaries are folded into the statement that uses them
+        # (sa/foldtemps.py) - on every tree, the reference one included; after
+        # desugaring, so that a conditional expression or comprehension bound
+        # to a name has its statement form first
+        self.folded = {}
         self.desugared = 0
         if not os.environ.get("VERIF_NO_DESUGAR"):
             for q, fi in self.funcs.items():
@@ -260,8 +270,25 @@ class Model(object):
                        (isinstance(n, ast.Attribute) and n.attr == "extend")
                        for n in ast.walk(fi.node)):
                     self.desugared += desugar.desugar_function(fi.node)
+        self._fold_all()
         for q, fi in self.funcs.items():
             self._alpha(q, fi.node)
+
+    def _fold_all(self):
+        if os.environ.get("VERIF_NO_FOLD"):
+            return
+        from . import foldtemps
+        for q, fi in self.funcs.items():
+            short = q[len(self.pkg) + 1:] if q.startswith(self.pkg + ".") \
+                else q
+            k = 0
+            for sub in ast.walk(fi.node):
+                if isinstance(sub, (ast.FunctionDef, ast.AsyncFunctionDef)):
+                    k += foldtemps.fold_function(sub, {
+                        a.arg for a in ast.walk(sub.args)
+                        if isinstance(a, ast.arg)})
+            if k:
+                self.folded[short] = self.folded.get(short, 0) + k
 
     def _alpha(self, qual, node):
         """Map renamed locals back onto the reference names (sa/alpha.py)."""
